@@ -195,7 +195,8 @@ func runRequests(r *common.Run, sk *sink, caseNo int, rng *rand.Rand, seed int64
 		}
 		return sessions[hi]
 	}
-	var forceHost int32 // host index + 1 that every request goes through, as proposals only (0: any host, any kind)
+	var forceHost int32    // host index + 1 that every request goes through, as proposals only (0: any host, any kind)
+	var forceAnyKind int32 // with forceHost: requests of every kind
 	issue := func(g int, prng *rand.Rand) {
 		h := c.Hosts[prng.Intn(3)]
 		forced := atomic.LoadInt32(&forceHost)
@@ -213,7 +214,7 @@ func runRequests(r *common.Run, sk *sink, caseNo int, rng *rand.Rand, seed int64
 		var err error
 		rec := &reqRec{host: h.Index, timeoutMs: toMs}
 		x := prng.Intn(20)
-		if forced != 0 {
+		if forced != 0 && atomic.LoadInt32(&forceAnyKind) == 0 {
 			x = 0
 		}
 		switch {
@@ -543,6 +544,26 @@ func runRequests(r *common.Run, sk *sink, caseNo int, rng *rand.Rand, seed int64
 	}
 	if rng.Intn(2) == 0 {
 		atomic.StoreInt32(&pauseFlag, 1)
+		if iso := rng.Intn(4); iso < 3 {
+			// one host is cut off for the whole drain and gets requests of every kind first: without
+			// a quorum proposals, reads and membership changes must expire on their deadlines, log
+			// queries - answered by the replica itself, whatever its role - must still be answered
+			time.Sleep(20 * time.Millisecond)
+			c.Net.Isolate(c.Hosts[iso].Addr, rng.Intn(2) == 0)
+			time.Sleep(time.Duration(150+rng.Intn(150)) * time.Millisecond) // past the election timeout
+			atomic.StoreInt32(&forceAnyKind, 1)
+			atomic.StoreInt32(&forceHost, int32(iso)+1)
+			lone := rand.New(rand.NewSource(seed ^ 0x150))
+			for k := 0; k < 60; k++ {
+				issue(0, lone)
+				if k%10 == 9 {
+					time.Sleep(15 * time.Millisecond)
+				}
+			}
+			atomic.StoreInt32(&forceHost, 0)
+			atomic.StoreInt32(&forceAnyKind, 0)
+			sk.Count("expiry_drains_with_a_host_without_quorum", 1)
+		}
 		base := map[int]int64{}
 		for i := 0; i < 3; i++ {
 			base[i] = c.Ticks(shardID, uint64(i+1))
@@ -561,6 +582,7 @@ func runRequests(r *common.Run, sk *sink, caseNo int, rng *rand.Rand, seed int64
 		} else {
 			sk.Count("expiry_drain_watchdog", 1)
 		}
+		c.Net.HealAll()
 		atomic.StoreInt32(&pauseFlag, 0)
 		time.Sleep(time.Duration(150+rng.Intn(200)) * time.Millisecond)
 	}
